@@ -792,8 +792,9 @@ func (b *Builder) Finish() error {
 			if !strings.HasSuffix(p, ".zoekt") {
 				continue
 			}
-			err := SetTombstone(p, b.opts.RepositoryDescription.ID)
-			b.buildError = err
+			if err := SetTombstone(p, b.opts.RepositoryDescription.ID); err != nil {
+				b.buildError = err
+			}
 			continue
 		}
 		log.Printf("removing old shard file: %s", p)
